@@ -289,6 +289,24 @@ func evalC07(c *engine.Case) engine.Verdict {
 					}
 				}
 			}
+		case 4:
+			// the converter has a second, named input; its type-only input
+			// must still be fed by the value named like the parameter
+			found := false
+			for _, ev := range o.Events {
+				if ev.Func != x.FirstConv {
+					continue
+				}
+				found = true
+				for _, a := range ev.Args {
+					if !a.L.Named() && a.Tok != x.NameInput {
+						v.Failf("the converter f%d (which also takes the named option %q) converted #%d; the supplied value whose name equals the parameter's name is #%d", ev.Func, ev.Args[0].L.Name, a.Tok, x.NameInput)
+					}
+				}
+			}
+			if !found {
+				v.Failf("the only converter able to produce the parameter was not executed")
+			}
 		case 1:
 			found := false
 			for _, ev := range o.Events {
@@ -329,7 +347,51 @@ func evalC07(c *engine.Case) engine.Verdict {
 	return v
 }
 
+// genC07Multi: shape 4 -- ONE converter with two inputs, a named option q and
+// a type-only input of the source type; several supplied named values of the
+// source type. The converter is entered through either input; name affinity
+// must survive that.
+func genC07Multi(g engine.G) *engine.Case {
+	names := rapidPerm(g, []string{"a", "b", "cd", "ef"})
+	n := names[0]
+	perm := rapidPerm(g, []int{0, 1, 2, 3, 4, 5})
+	t0, t1, tq := perm[0], perm[1], perm[2]
+	sc := &engine.Scenario{}
+	x := C07Case{Shape: 4, FirstConv: 1}
+	tok := 0
+	add := func(l engine.Label) int {
+		tok++
+		l.Dyn = l.Type
+		sc.Inputs = append(sc.Inputs, engine.Input{L: l, Tok: tok})
+		return tok
+	}
+	x.NameInput = add(engine.Label{Name: n, Type: t0})
+	for _, o := range names[1:g.Int(2, 3)] {
+		add(engine.Label{Name: o, Type: t0})
+	}
+	add(engine.Label{Name: "q", Type: tq})
+	sc.Inputs = rapidPerm(g, sc.Inputs)
+	in := []engine.Label{{Name: "q", Type: tq, Dyn: tq}, {Type: t0, Dyn: t0}}
+	if g.Bool() {
+		in[0], in[1] = in[1], in[0]
+	}
+	out := engine.Label{Type: t1, Dyn: t1}
+	outForm := engine.GenForm(g)
+	if g.Pct(30) {
+		out.Name = n
+		outForm = engine.Pick(g, []string{engine.FormStruct, engine.FormPtr})
+	}
+	sc.Convs = []engine.FuncSpec{{ID: 1, In: in, InForm: engine.Pick(g, []string{engine.FormStruct, engine.FormPtr}), Out: []engine.Label{out}, OutForm: outForm, HasErr: g.Bool()}}
+	sc.Target = engine.FuncSpec{ID: engine.TargetID, In: []engine.Label{{Name: n, Type: t1, Dyn: t1}}, InForm: engine.Pick(g, []string{engine.FormStruct, engine.FormPtr}), OutForm: engine.FormPos}
+	c := &engine.Case{Sc: sc, Reps: 8}
+	c.SetX(&x)
+	return c
+}
+
 func genC07(g engine.G) *engine.Case {
+	if g.Pct(15) {
+		return genC07Multi(g)
+	}
 	names := []string{"a", "b", "cd", "ef"}
 	n := engine.Pick(g, names)
 	types := []int{0, 1, 2, 3, 4, 5}
